@@ -37,6 +37,8 @@ def ob_dict(o):
     d = {'name': o.name, 'result': o.result, 'backend': o.backend, 'time': round(o.time, 4), 'kind': o.kind}
     if o.result == 'refuted' and o.model is not None:
         d['model'] = model_text(o.model)
+    if o.extra.get('recheck'):
+        d['recheck'] = o.extra['recheck']
     return d
 
 
@@ -56,7 +58,7 @@ def run_op(contract, opts):
     pid = opts.get('pid', 'C??')
     run = OperatorRun(w, contract, property_id=pid)
     rep = run.run()
-    discharge_all(rep, timeout_ms=opts.get('timeout_ms', 10000))
+    discharge_all(rep, timeout_ms=opts.get('timeout_ms', 10000), recheck=(opts.get('tier') == 'thorough'))
     violations = []
     for o in rep.obligations:
         if o.result == 'refuted':
